@@ -5,6 +5,7 @@ per-namespace overrides, the same file mounted under two namespaces) on ONE data
 injected run failures, forcing, simulated and real interpreter restarts.  Every value the real code returns is compared with
 (a) the Lean store machine and (b) the reference evaluation of the task's provenance term from the CURRENT configuration."""
 import concurrent.futures
+import pathlib
 
 from tcv import gen, machine, pipeline as pl
 from tcv.quiet import quiet
@@ -307,6 +308,50 @@ def foreign_result_probes(ctx):
         if vals != [{'p': k}, {'p': k + 1}]:
             ctx.fail('a chain returned a value that is not what the task computes from its current configuration (stale or foreign result)',
                      case, {'returned': vals})
+
+    # (vi) a directory result computed where a killed earlier run left its work directory: the chain returns what THIS run wrote
+    dspec = {'classes': {'K0': {'name': 'dd', 'group': '', 'params': [{'name': 'x'}], 'inputs': [], 'kind': 'dir', 'run_args': ['x']}},
+             'files': {'main.json': {'tasks': ['K0'], 'x': 1}}, 'main': 'main.json', 'module': gen.fresh_modname()}
+    db = pl.materialize(dspec, root / 'fr' / 'dirsrc', modname=dspec['module'])
+    dmod = db.module()
+    for k in range(ctx.n(2, 6)):
+        case = {'probe': 'directory result, work directory of a killed run left behind', 'round': k}
+        ctx.case(case, nontrivial=True); ctx.count('foreign-result-probe:leftover-work-directory')
+        chain, err = pl.build(db, root / 'fr' / f'dirdata{k}', main='main.json')
+        t = chain.tasks['dd']
+        key = t.name_for_persistence
+        left = root / 'fr' / f'dirdata{k}' / 'dd' / f'{key}_tmp'
+        left.mkdir(parents=True, exist_ok=True)
+        (left / 'run-0.marker').write_text('dead'); (left / 'shard-dead.bin').write_bytes(b'partial')
+        got = dmod.unwrap('dir', t.value)
+        names = sorted(p_.name for p_ in pathlib.Path(t.value).iterdir()) if isinstance(t.value, (str, pathlib.Path)) else None
+        if got != {'t': 'dd', 'p': {'x': 1}, 'i': []} or (names is not None and 'shard-dead.bin' in names):
+            ctx.fail('a chain returned a value that is not what the task computes from its current configuration (stale or foreign result)',
+                     case, {'returned': got, 'files': names})
+    db.cleanup_module()
+    # (v) a typed parameter whose value arrives as text (an override assembled from command-line arguments): refused at construction —
+    #     never a chain that computes from, or serves the result stored for, ANOTHER value (`'false'` is not False, and certainly not True)
+    def typed(dtype):
+        class Typed(Task):
+            class Meta:
+                name = 'typed'
+                parameters = [Parameter('flag', dtype=dtype)]
+
+            def run(self, flag) -> dict:
+                return {'flag': flag}
+        return Typed
+    for k, (dtype, good, text) in enumerate([(bool, True, 'false'), (bool, False, 'False'), (int, 7, '8'), (float, 1.5, '2.5'), (bool, True, '0')]):
+        case = {'probe': 'typed parameter given a string', 'dtype': dtype.__name__, 'stored_for': good, 'text': text}
+        ctx.case(case, nontrivial=True); ctx.count('foreign-result-probe:typed-text')
+        cls_t = typed(dtype)
+        v0 = Config(root / 'fr' / f'typed{k}', name='c', data={'tasks': [cls_t], 'flag': good}).chain().tasks['typed'].value
+        try:
+            v1 = Config(root / 'fr' / f'typed{k}', name='c', data={'tasks': [cls_t], 'flag': text}).chain().tasks['typed'].value
+        except (ValueError, TypeError):
+            continue
+        if v1 != {'flag': text}:
+            ctx.fail('a chain returned a value that is not what the task computes from its current configuration (stale or foreign result)',
+                     case, {'returned': v1, 'configured': text})
 
     class Knob:
         def __init__(self, v):
